@@ -302,6 +302,17 @@ class Translator:
             "np.sign": sp.sign, "np.abs": sp.Abs, "abs": sp.Abs, "np.fabs": sp.Abs, "math.fabs": sp.Abs,
             "float": lambda x: x, "int": lambda x: x, "np.float64": lambda x: x, "np.asarray": lambda x: x, "np.array": lambda x: x,
         }
+        if f in ("math.prod", "np.prod", "numpy.prod") and len(args) == 1 and not kw and isinstance(args[0], ast.Call) and norm(args[0].func) == "range" and 1 <= len(args[0].args) <= 2:
+            # a product over a range whose length is a literal once the case parameters are substituted
+            ra = [self.tr(a) for a in args[0].args]
+            lo, hi = (sp.Integer(0), ra[0]) if len(ra) == 1 else (ra[0], ra[1])
+            n = sp.simplify(hi - lo)
+            if n.is_Integer:
+                out = sp.Integer(1)
+                for k in range(max(0, int(n))):
+                    out = out * (lo + k)
+                return out
+            raise Unsupported(f"trip count `{n}` of `{norm(args[0])}` is not a literal after substitution")
         if f in ("np.array", "np.asarray", "numpy.array", "numpy.asarray") and len(args) == 1 and set(kw) <= {"dtype"}:
             x = self.tr(args[0])
             if isinstance(x, (list, tuple)) and x and all(isinstance(r, (list, tuple)) for r in x) and len({len(r) for r in x}) == 1:
